@@ -528,6 +528,74 @@ def reused_record_ok(items, sink):
         record["meta"] = {}
         record["meta"].update(item)
         sink(record)
+
+
+def loop_leak(edges, weight):
+    total = 0
+    for e in edges:
+        w = weight(e)
+    total += w
+    return total
+
+
+def loop_leak_ok(edges, weight):
+    total = 0
+    w = 0
+    for e in edges:
+        w = weight(e)
+        total += w
+    total += len(edges)
+    return total
+
+
+def acc_reset(groups):
+    for g in groups:
+        found = []
+        for x in g:
+            found.append(x)
+    return found
+
+
+def acc_reset_ok(groups):
+    out = {}
+    for k, g in groups.items():
+        found = []
+        for x in g:
+            found.append(x)
+        out[k] = found
+    return out
+
+
+def _absorb(fixed_u, fixed_w):
+    return (fixed_u, fixed_w)
+
+
+def arg_swap(fixed_u, fixed_w):
+    return _absorb(fixed_w, fixed_u)
+
+
+def arg_swap_ok(fixed_u, fixed_w):
+    return _absorb(fixed_u, fixed_w)
+
+
+def sort_pair():
+    from hypergraphx import DirectedHypergraph
+
+    h = DirectedHypergraph()
+    out = []
+    for e in h.get_edges():
+        out.append(tuple(sorted(e)))
+    return out
+
+
+def sort_pair_ok():
+    from hypergraphx import DirectedHypergraph
+
+    h = DirectedHypergraph()
+    out = []
+    for e in h.get_edges():
+        out.append((tuple(sorted(e[0])), tuple(sorted(e[1]))))
+    return out
 '''
 
 _PROBE_EXPECT = {
@@ -579,6 +647,14 @@ _PROBE_EXPECT = {
     "trace_matmul_ok": ("N-TRACEMUL", False),
     "reused_record": ("G-REUSEDREC", True),
     "reused_record_ok": ("G-REUSEDREC", False),
+    "loop_leak": ("G-LOOPLEAK", True),
+    "loop_leak_ok": ("G-LOOPLEAK", False),
+    "acc_reset": ("G-ACCRESET", True),
+    "acc_reset_ok": ("G-ACCRESET", False),
+    "arg_swap": ("G-ARGSWAP", True),
+    "arg_swap_ok": ("G-ARGSWAP", False),
+    "sort_pair": ("K-SORTPAIR", True),
+    "sort_pair_ok": ("K-SORTPAIR", False),
 }
 
 
@@ -590,7 +666,7 @@ def lint_pack_controls(repo: str) -> dict:
     from .effects import check_shared_literals
     from .report import Result
 
-    fns = {"G-STALE": L.check_stale_in_loop, "G-REUSE": L.check_iterator_reuse, "N-FANCYAUG": L.check_fancy_augassign, "G-GROUPBY": L.check_groupby_sorted, "E-SHARED": check_shared_literals, "G-LIVEITER": L.check_mutation_while_iterating, "E-DEFAULTARG": L.check_mutable_defaults, "G-KEYPROJ": L.check_key_projection, "K-OWNER": L.check_id_owner, "G-COUNTERADD": L.check_counter_arith, "G-ZEROBUCKET": L.check_zero_buckets, "G-LENVALID": L.check_len_validated_cache, "G-SHAPEGUESS": L.check_layout_guess, "K-LABELTYPE": L.check_label_type_dispatch, "G-ZIPALIGN": L.check_zip_alignment, "G-TRUTHY0": L.check_truthy_index, "G-PYTRAP": L.check_python_traps, "G-LOSSYKEY": L.check_lossy_keys, "G-TRISTATE": L.check_tristate_flag, "N-TRACEMUL": L.check_trace_of_elementwise, "G-REUSEDREC": L.check_reused_record}
+    fns = {"G-STALE": L.check_stale_in_loop, "G-REUSE": L.check_iterator_reuse, "N-FANCYAUG": L.check_fancy_augassign, "G-GROUPBY": L.check_groupby_sorted, "E-SHARED": check_shared_literals, "G-LIVEITER": L.check_mutation_while_iterating, "E-DEFAULTARG": L.check_mutable_defaults, "G-KEYPROJ": L.check_key_projection, "K-OWNER": L.check_id_owner, "G-COUNTERADD": L.check_counter_arith, "G-ZEROBUCKET": L.check_zero_buckets, "G-LENVALID": L.check_len_validated_cache, "G-SHAPEGUESS": L.check_layout_guess, "K-LABELTYPE": L.check_label_type_dispatch, "G-ZIPALIGN": L.check_zip_alignment, "G-TRUTHY0": L.check_truthy_index, "G-PYTRAP": L.check_python_traps, "G-LOSSYKEY": L.check_lossy_keys, "G-TRISTATE": L.check_tristate_flag, "N-TRACEMUL": L.check_trace_of_elementwise, "G-REUSEDREC": L.check_reused_record, "G-LOOPLEAK": L.check_loop_leak, "G-ACCRESET": L.check_accumulator_reset, "G-ARGSWAP": L.check_swapped_arguments, "K-SORTPAIR": L.check_sorted_pair}
     ctx = Ctx(repo, "quick", overrides={_PROBE_REL: _PROBE_SRC})
     out = {"controls": [], "broken": []}
     for name, (rule, must) in _PROBE_EXPECT.items():
